@@ -357,6 +357,12 @@ def handle : List String → String
       let nrm := (frobNorm X.mat).re
       return "/".intercalate [showDM X, showFloat nrm,
         if nrm - 1.0 < (assertTol : CF).re then "assert-ok" else "AssertionError"]
+  -- svdkept nr nt ns -> discarded | kept   (repaired source)
+  | ["svdkept", nr, nt, ns] => Id.run do
+      let some nr := nr.toNat? | return "bad-op"
+      let some nt := nt.toNat? | return "bad-op"
+      let some ns := ns.toNat? | return "bad-op"
+      return toString (svdInitDiscard true nr nt ns) ++ "/" ++ toString (svdInitKept true nr nt ns)
   | _ => "bad-op"
 
 def main : IO Unit := runDriver handle
